@@ -48,6 +48,7 @@ MANIFEST = {
 }
 
 DONTCARE = os.path.join(common.ROOT, "c01_dontcare.json")
+UNKNOWN_REGISTERED = ["iods"]      # mp4/box.go: "iods": DecodeUnknown
 WHAT = {("mvhd", 70): "reserved(10) + matrix(36) + pre_defined(24)", ("tkhd", 4): "reserved(4)", ("tkhd", 8): "reserved(8)",
         ("tkhd", 38): "reserved(2) + matrix(36)", ("sidx", 2): "reserved(2)", ("mdhd", 2): "pre_defined(2)",
         ("hdlr", 12): "reserved(12)", ("smhd", 2): "reserved(2)", ("tenc", 2): "reserved(8) reserved(8)",
@@ -259,6 +260,9 @@ def run(ctx):
     leaves, conts = model_names(model)
     ctx.notes["modelled_leaf_types"] = leaves
     ctx.notes["modelled_container_types"] = conts
+    # registered types whose registered decoder IS DecodeUnknown(SR): the model's fallback for names outside its tables
+    conts = conts + UNKNOWN_REGISTERED
+    ctx.notes["modelled_as_unknown_box"] = UNKNOWN_REGISTERED
     pr = ctx.proofs("c01", "C01Theorems.v")
     n = ctx.n(6000, 200000)
     lines, mism = run_corr(ctx, exe, model, ["-seed", str(ctx.seed), "-n", str(n), "-nfile", str(ctx.n(700, 30000)),
